@@ -1,6 +1,7 @@
 package rules
 
 import (
+	"fmt"
 	"go/token"
 	"go/types"
 	"strings"
@@ -15,7 +16,7 @@ func init() {
 		ID: "C09",
 		Decides: "export, import and copy consult the same three getters and agree on which media types are manifests; export writes each digest once (the 'already written' test dominates every write) under a name built from the same validated descriptor whose content it fetches, and compares the number of blob bytes written with the descriptor; " +
 			"on import every manifest push of the OCI path sits in a function appended to the finish list, the list is run from its last entry down and only after the archive was read without error; the Docker path pushes its manifest only after the second pass succeeded; the Docker-loadable manifest names the image by a reference whose digest was cleared.",
-		NotCovered: "the archive state machine over entry orders, links (seeded change C09-1 is value-level and not detected), compression, Docker-format layer re-compression, round-trip equality.",
+		NotCovered: "the archive state machine over entry orders (only the 'a handler added during the scan requests a rescan' step is checked), links (seeded change C09-1 is value-level and not detected), compression, Docker-format layer re-compression, round-trip equality.",
 		Run:        runC09,
 	})
 }
@@ -38,6 +39,8 @@ func runC09(p *core.Prog, r *core.Report) {
 	c09R2R3(p, r)
 	c09R4(p, r)
 	c09R5(p, r)
+	c09R6(p, r)
+	c09R7(p, r)
 }
 
 func c09R2R3(p *core.Prog, r *core.Report) {
@@ -323,4 +326,255 @@ func c09R5(p *core.Prog, r *core.Report) {
 		r.Undecided(rule, name, "RepoTags entry", p.Pos(fn.Pos()), "no store to a RepoTags field found")
 	}
 	_ = strings.Contains
+}
+
+// ---------------------------------------------------------------------------------------------
+// R6 a handler added while the archive is being scanned requests another pass
+
+func c09R6(p *core.Prog, r *core.Report) {
+	const rule = "C09.R6"
+	r.Rule(rule, "import scan protocol: code that runs during the scan of the archive (a handler, or anything reachable from one) and registers a further handler sets the rescan flag on every path afterwards; without it an entry that precedes the one that caused the registration is never delivered (entry order must not matter)", 2)
+	trd := p.Named(".", "tarReadData")
+	if trd == nil {
+		r.MissingAnchor(rule, "regclient.tarReadData")
+		return
+	}
+	isField := func(v ssa.Value, name string) bool {
+		// load of trd.<name> or its address
+		if u, ok := v.(*ssa.UnOp); ok && u.Op == token.MUL {
+			v = u.X
+		}
+		fa, ok := v.(*ssa.FieldAddr)
+		if !ok {
+			return false
+		}
+		n, f := core.FieldAddrInfo(fa)
+		return n == trd && f == name
+	}
+	// handler functions: function values stored into the handlers map
+	handlers := map[*ssa.Function]bool{}
+	type regSite struct {
+		fn *ssa.Function
+		mu *ssa.MapUpdate
+	}
+	var regs []regSite
+	for _, fn := range pkgFuncs(p, ".") {
+		for _, b := range fn.Blocks {
+			for _, in := range b.Instrs {
+				mu, ok := in.(*ssa.MapUpdate)
+				if !ok || !isField(mu.Map, "handlers") {
+					continue
+				}
+				regs = append(regs, regSite{fn, mu})
+				for _, o := range core.Origins(mu.Value, core.SliceOpts{}) {
+					if g := closureOf(o.Val); g != nil {
+						handlers[g] = true
+					}
+				}
+				if g := closureOf(mu.Value); g != nil {
+					handlers[g] = true
+				}
+			}
+		}
+	}
+	if len(regs) == 0 || len(handlers) == 0 {
+		r.Undecided(rule, "regclient", "handler registrations", "", fmt.Sprintf("found %d registrations and %d handler functions", len(regs), len(handlers)))
+		return
+	}
+	during := map[*ssa.Function]bool{}
+	for h := range handlers {
+		for f := range p.ReachSet(h, core.ReachQuery{}) {
+			during[f] = true
+		}
+	}
+	setsFlag := func(in ssa.Instruction) bool {
+		st, ok := in.(*ssa.Store)
+		if !ok || !isField(st.Addr, "handleAdded") {
+			return false
+		}
+		b, isC := core.ConstBool(st.Val)
+		return isC && b
+	}
+	// flagged(fn, at): every path from `at` to a return of fn passes a store of true to the flag; for a
+	// literal that is called where it is written the check continues at the call in the parent
+	var flagged func(fn *ssa.Function, at ssa.Instruction, depth int) bool
+	flagged = func(fn *ssa.Function, at ssa.Instruction, depth int) bool {
+		seen := core.Reach{Stop: setsFlag}.FromInstr(at)
+		escapes := false
+		for in := range seen {
+			if ret, isRet := in.(*ssa.Return); isRet && !failureReturn(fn, ret) {
+				escapes = true
+			}
+		}
+		if !escapes {
+			return true
+		}
+		if handlers[fn] || fn.Parent() == nil || depth > 3 {
+			return false
+		}
+		// immediately invoked literal: continue after each call in the parent
+		par := fn.Parent()
+		found := false
+		ok := true
+		core.Calls(par, func(c ssa.CallInstruction) {
+			if closureOf(c.Common().Value) == fn {
+				found = true
+				if !flagged(par, c.(ssa.Instruction), depth+1) {
+					ok = false
+				}
+			}
+		})
+		return found && ok
+	}
+	lab := map[*ssa.Function]labeler{}
+	n := 0
+	for _, rs := range regs {
+		if !during[rs.fn] {
+			continue
+		}
+		n++
+		if lab[rs.fn] == nil {
+			lab[rs.fn] = labeler{}
+		}
+		label := lab[rs.fn].next("handler registered during the scan")
+		r.Check(flagged(rs.fn, rs.mu, 0), rule, p.FuncName(rs.fn), label, p.Pos(rs.mu.Pos()),
+			"after the registration every path sets the rescan flag (a registration without it is only honoured for entries that come later in the archive)")
+	}
+	if n == 0 {
+		r.Held(rule, "regclient", "no handler is registered during the scan", "", "all handlers are installed before the scan starts")
+	}
+}
+
+// failureReturn: the return hands back a non-nil error (its last result is an error value that is
+// returned from the non-nil edge of a test of that value, or a fresh error).
+func failureReturn(fn *ssa.Function, ret *ssa.Return) bool {
+	res := fn.Signature.Results()
+	if res.Len() == 0 {
+		return false
+	}
+	last := res.Len() - 1
+	if !types.Identical(res.At(last).Type(), types.Universe.Lookup("error").Type()) {
+		return false
+	}
+	v := core.ReturnOperand(ret, last)
+	if v == nil || core.IsNilConst(v) {
+		return false
+	}
+	for _, oc := range originCalls(v) {
+		if cal := core.Callee(oc); cal != nil && (core.IsFunc(cal, "fmt", "Errorf") || core.IsFunc(cal, "errors", "New")) {
+			return true
+		}
+	}
+	return anyGuard(ret.Block(), func(c ssa.Value, pol bool) bool {
+		x, neq, isNil := errCmpNil(c)
+		return isNil && neq == pol && x == v
+	})
+}
+
+// ---------------------------------------------------------------------------------------------
+// R7 the content of an archive entry is read once
+
+func c09R7(p *core.Prog, r *core.Report) {
+	const rule = "C09.R7"
+	r.Rule(rule, "an archive entry's stream is consumed once: after a call that reads the current tar entry (the tar reader field handed to a reader, or a helper that reads it) no second such call is reachable in the same handler; the second reader would see an empty stream (a blob imported after the entry had been read to look for a manifest is uploaded empty)", 3)
+	trd := p.Named(".", "tarReadData")
+	if trd == nil {
+		r.MissingAnchor(rule, "regclient.tarReadData")
+		return
+	}
+	isTr := func(v ssa.Value) bool {
+		for i := 0; i < 3; i++ {
+			switch x := v.(type) {
+			case *ssa.MakeInterface:
+				v = x.X
+				continue
+			case *ssa.ChangeInterface:
+				v = x.X
+				continue
+			}
+			break
+		}
+		u, ok := v.(*ssa.UnOp)
+		if !ok || u.Op != token.MUL {
+			return false
+		}
+		fa, ok := u.X.(*ssa.FieldAddr)
+		if !ok {
+			return false
+		}
+		n, f := core.FieldAddrInfo(fa)
+		return n == trd && f == "tr"
+	}
+	// helpers that read the entry: functions (not literals) that hand the tar reader to a reader
+	consumesDirect := func(c ssa.CallInstruction) bool {
+		cal := core.Callee(c)
+		if cal != nil && cal.Name() == "Next" {
+			return false // advancing to the next entry
+		}
+		for _, a := range c.Common().Args {
+			if isTr(a) {
+				return true
+			}
+		}
+		return false
+	}
+	helpers := map[*ssa.Function]bool{}
+	for _, fn := range pkgFuncs(p, ".") {
+		if fn.Parent() != nil {
+			continue
+		}
+		core.Calls(fn, func(c ssa.CallInstruction) {
+			if consumesDirect(c) {
+				helpers[fn] = true
+			}
+		})
+	}
+	n := 0
+	for _, fn := range pkgFuncs(p, ".") {
+		var cons []ssa.CallInstruction
+		core.Calls(fn, func(c ssa.CallInstruction) {
+			if _, isDefer := c.(*ssa.Defer); isDefer {
+				return
+			}
+			if consumesDirect(c) {
+				cons = append(cons, c)
+				return
+			}
+			if g := core.CalleeFn(c); g != nil && helpers[g] && g != fn {
+				cons = append(cons, c)
+			}
+		})
+		if len(cons) == 0 {
+			continue
+		}
+		// a loop that advances the tar reader between reads is the scan itself
+		advances := false
+		core.Calls(fn, func(c ssa.CallInstruction) {
+			if cal := core.Callee(c); cal != nil && cal.Name() == "Next" && core.IsNamed(core.CallArg(c, 0).Type(), "archive/tar", "Reader") {
+				advances = true
+			}
+		})
+		lab := labeler{}
+		for _, c1 := range cons {
+			n++
+			label := lab.next("entry read")
+			bad := ""
+			if !advances {
+				seen := (core.Reach{}).FromInstr(c1.(ssa.Instruction))
+				for _, c2 := range cons {
+					if c2 != c1 && seen[c2.(ssa.Instruction)] {
+						bad = p.Pos(c2.Pos())
+					}
+				}
+			}
+			if bad != "" {
+				r.Violated(rule, p.FuncName(fn), label, p.Pos(c1.Pos()), "the entry is read here and again at "+bad+": the second reader gets nothing")
+			} else {
+				r.Held(rule, p.FuncName(fn), label, p.Pos(c1.Pos()), "no second read of the same entry is reachable")
+			}
+		}
+	}
+	if n == 0 {
+		r.Undecided(rule, "regclient", "entry reads", "", "no read of the tar reader field found")
+	}
 }
